@@ -146,6 +146,51 @@ impl std::fmt::Debug for Tk24 {
     }
 }
 
+/// Drop-tracked element of 1 KiB: arrays of it cross byte-size thresholds (64 KiB at N = 97, 1 MiB at N = 1024)
+/// that arrays of small elements never reach.
+pub struct Tk1k {
+    inner: Tk,
+    pad: [u64; 127],
+}
+impl Tk1k {
+    fn pad_for(p: u64) -> [u64; 127] {
+        let mut a = [p ^ 0x3333; 127];
+        a[126] = p ^ 0x4444;
+        a
+    }
+}
+impl Elem for Tk1k {
+    const ETY: &'static str = "tk";
+    fn fresh() -> Tk1k {
+        let inner = Tk::fresh();
+        let p = inner.id() as u64;
+        Tk1k { inner, pad: Tk1k::pad_for(p) }
+    }
+    fn id(&self) -> i64 {
+        let p = self.inner.id() as u64;
+        if self.pad[0] == p ^ 0x3333 && self.pad[63] == p ^ 0x3333 && self.pad[126] == p ^ 0x4444 { self.inner.id() } else { -1 }
+    }
+}
+impl Clone for Tk1k {
+    fn clone(&self) -> Tk1k {
+        let inner = self.inner.clone();
+        let p = inner.id() as u64;
+        Tk1k { inner, pad: Tk1k::pad_for(p) }
+    }
+}
+impl Default for Tk1k {
+    fn default() -> Tk1k {
+        let inner = Tk::default();
+        let p = inner.id() as u64;
+        Tk1k { inner, pad: Tk1k::pad_for(p) }
+    }
+}
+impl std::fmt::Debug for Tk1k {
+    fn fmt(&self, f: &mut std::fmt::Formatter) -> std::fmt::Result {
+        write!(f, "Tk1k#{}", self.id())
+    }
+}
+
 /// Plain one-byte element (ids 1..=255 only): no destructor, identity = value.
 #[derive(Debug, PartialEq, Eq)]
 pub struct P1(pub u8);
@@ -284,6 +329,17 @@ serde_elem!(Pl);
 serde_elem!(TkZ);
 serde_elem!(P1);
 serde_elem!(PlZ);
+impl serde::Serialize for Tk1k {
+    fn serialize<S: serde::Serializer>(&self, s: S) -> Result<S::Ok, S::Error> {
+        s.serialize_u32(Elem::id(self) as u32)
+    }
+}
+impl<'de> serde::Deserialize<'de> for Tk1k {
+    fn deserialize<D: serde::Deserializer<'de>>(d: D) -> Result<Tk1k, D::Error> {
+        let _wire = <u32 as serde::Deserialize>::deserialize(d)?;
+        Ok(crate::serde_drv::mkde::<Tk1k>())
+    }
+}
 impl serde::Serialize for Tk24 {
     fn serialize<S: serde::Serializer>(&self, s: S) -> Result<S::Ok, S::Error> {
         s.serialize_u32(Elem::id(self) as u32)
